@@ -75,14 +75,15 @@ def obligations(cx):
                 tag = "%s%s.%s" % (model, '.two-alpha' if nr == 'two' else '', typ)
                 pre = base + (upos if model == 'UNIQUAC' else [])
                 for q, label in ((fn, 'gamma'), (gp, 'pressures')):
-                    ra = only_return(cx.explore(call(src, q, [], dict(temperature=Tt, mixture=ma, composition=W.composition(src, X, typ), calculation_type=model)), pre=pre), q)
-                    rb = only_return(cx.explore(call(src, q, [], dict(temperature=Tt, mixture=mb, composition=W.composition(src, 1 - X, typ), calculation_type=model)), pre=pre), q)
-                    cx.ob("%s.%s.swap" % (label, tag), ra.pc + rb.pc, band(eq(rb.value[0], ra.value[1]), eq(rb.value[1], ra.value[0])), function=q,
-                          statement="exchanging the components (parameters, p -> 1-p) exchanges the %s" % ('activity coefficients' if label == 'gamma' else 'partial pressures'),
-                          ranges={'x1': (0.1, 0.9)})
-                    if model == 'UNIQUAC':
-                        # fingerprint of K1 for the swap property: with the residual bracket of gamma_2 corrected the symmetry holds
-                        pass
+                    pas = returns(cx.explore(call(src, q, [], dict(temperature=Tt, mixture=ma, composition=W.composition(src, X, typ), calculation_type=model)), pre=pre))
+                    pbs = returns(cx.explore(call(src, q, [], dict(temperature=Tt, mixture=mb, composition=W.composition(src, 1 - X, typ), calculation_type=model)), pre=pre))
+                    cx.ob("%s.%s.paths" % (label, tag), [], blit(len(pas) >= 1 and len(pbs) >= 1), kind='paths', function=q)
+                    for ai, ra in enumerate(pas):          # one path each on the current tree; every jointly feasible pair must agree
+                        for bi, rb in enumerate(pbs):
+                            cx.ob("%s.%s.swap" % (label, tag) + ("" if ai + bi == 0 else ".paths%d-%d" % (ai, bi)), ra.pc + rb.pc, band(eq(rb.value[0], ra.value[1]), eq(rb.value[1], ra.value[0])), function=q,
+                                  statement="exchanging the components (parameters, p -> 1-p) exchanges the %s" % ('activity coefficients' if label == 'gamma' else 'partial pressures'),
+                                  ranges={'x1': (0.1, 0.9), 'al12': (0.0, 0.6), 'al21': (0.0, 0.6)})
+                    ra, rb = pas[0], pbs[0]
                 if model == 'NRTL' and typ == 'molar':
                     cx.must_fail("gamma.%s" % tag, ra.pc + rb.pc, band(eq(rb.value[0], ra.value[0]), eq(rb.value[1], ra.value[1])))
     # K1 fingerprint for C06: the only asymmetry of the UNIQUAC code is the documented wrong bracket (same finding as C04)
